@@ -675,7 +675,9 @@ func (b *Builder) Mandatory(o interface{}, m bool) {
 
 func (b *Builder) MinElements(o interface{}, i int) {
 	h, valid := o.(HasMinMax)
-	if valid {
+	if i < 0 {
+		b.setErr(fmt.Errorf("not a valid number for min elements %d", i))
+	} else if valid {
 		h.setMinElements(i)
 	} else {
 		b.setErr(fmt.Errorf("%T does not support list details", o))
@@ -693,7 +695,9 @@ func (b *Builder) OrderedBy(o interface{}, order OrderedBy) {
 
 func (b *Builder) MaxElements(o interface{}, i int) {
 	h, valid := o.(HasMinMax)
-	if valid {
+	if i < 0 {
+		b.setErr(fmt.Errorf("not a valid number for max elements %d", i))
+	} else if valid {
 		h.setMaxElements(i)
 	} else {
 		b.setErr(fmt.Errorf("%T does not support list details", o))
@@ -809,6 +813,8 @@ func (b *Builder) Position(o interface{}, x int) {
 	i, valid := o.(*Bit)
 	if !valid {
 		b.setErr(fmt.Errorf("%T does not support position, only type bit", o))
+	} else if x < 0 {
+		b.setErr(fmt.Errorf("not a valid number for position %d", x))
 	} else {
 		i.Position = x
 		i.positionSet = true
@@ -847,6 +853,8 @@ func (b *Builder) FractionDigits(o interface{}, x int) {
 	i, valid := o.(*Type)
 	if !valid {
 		b.setErr(fmt.Errorf("%T does not support fraction digits, only type does", o))
+	} else if x < 0 {
+		b.setErr(fmt.Errorf("not a valid number for fraction digits %d", x))
 	} else {
 		i.fractionDigits = x
 	}
